@@ -49,7 +49,11 @@ def _cells_only_opacity(fn: ast.AST, objects_attr: ast.AST, parents) -> bool:
         if not isinstance(comp, (ast.ListComp, ast.GeneratorExp, ast.SetComp)):
             return False
         row = par.target.id
-        cells = [g.target.id for g in comp.generators
+        # the cells: the row iterated by a later generator of the same comprehension, or by a
+        # comprehension nested in its element (`[[f(o) for o in row] for row in G.objects]`)
+        cells = [g.target.id for c_ in ast.walk(comp)
+                 if isinstance(c_, (ast.ListComp, ast.GeneratorExp, ast.SetComp))
+                 for g in c_.generators
                  if isinstance(g.iter, ast.Name) and g.iter.id == row
                  and isinstance(g.target, ast.Name)]
         if len(cells) != 1:
@@ -166,9 +170,92 @@ def _total_counter(index, f: Func, call: ast.Call, pname: str, gname: str) -> bo
 
 
 def unprefix_(t: str) -> str:
-    """drop the prefixes the helper inliner gives to a helper's locals"""
+    """drop the prefixes the helper inliner gives to a helper's locals, and the conversion of
+    a counter kept as nested lists into an integer array (`np.array(counts, dtype=int)`)"""
     import re
-    return re.sub(r'_[A-Za-z_]+?\d+_(?=[A-Za-z_])', '', t)
+    t = re.sub(r'_[A-Za-z_]+?\d+_(?=[A-Za-z_])', '', t)
+    return re.sub(r'np\.(?:as)?array\((\w+)(?:, dtype=(?:int|np\.int64|np\.int_))?\)', r'\1', t)
+
+
+def _opacity_tables_to_cells(node: ast.FunctionDef, gname: str) -> ast.FunctionDef:
+    """`T = [[E(obj) for obj in row] for row in G.objects]` ... `T[y][x]` with `y, x = pos.yx`
+    (or pos.y / pos.x) reads E of the cell G[pos]: the lookup is replaced by that expression, and
+    `bool(<cell>.blocks_vision)` by the flag itself (it is only ever tested)"""
+    import copy
+    tables: Dict[str, Tuple[str, ast.AST]] = {}
+    stores: Dict[str, int] = {}
+    for n in ast.walk(node):
+        if isinstance(n, ast.Name) and isinstance(n.ctx, ast.Store):
+            stores[n.id] = stores.get(n.id, 0) + 1
+    for n in ast.walk(node):
+        if isinstance(n, ast.Assign) and len(n.targets) == 1 and \
+                isinstance(n.targets[0], ast.Name) and stores.get(n.targets[0].id) == 1 and \
+                isinstance(n.value, ast.ListComp) and len(n.value.generators) == 1 and \
+                src(n.value.generators[0].iter) == f'{gname}.objects' and \
+                isinstance(n.value.generators[0].target, ast.Name) and \
+                isinstance(n.value.elt, ast.ListComp) and len(n.value.elt.generators) == 1 and \
+                src(n.value.elt.generators[0].iter) == n.value.generators[0].target.id and \
+                isinstance(n.value.elt.generators[0].target, ast.Name) and \
+                not n.value.generators[0].ifs and not n.value.elt.generators[0].ifs:
+            tables[n.targets[0].id] = (n.value.elt.generators[0].target.id, n.value.elt.elt)
+    if not tables:
+        return node
+    # coordinates of a position: `y, x = pos.yx`
+    coord: Dict[str, Tuple[str, str]] = {}
+    for n in ast.walk(node):
+        if isinstance(n, ast.Assign) and len(n.targets) == 1 and \
+                isinstance(n.targets[0], ast.Tuple) and len(n.targets[0].elts) == 2 and \
+                all(isinstance(t, ast.Name) for t in n.targets[0].elts) and \
+                isinstance(n.value, ast.Attribute) and n.value.attr == 'yx':
+            a, b = (t.id for t in n.targets[0].elts)
+            if stores.get(a) == 1 and stores.get(b) == 1:
+                coord[a] = (src(n.value.value), 'y')
+                coord[b] = (src(n.value.value), 'x')
+
+    def axis_of(e: ast.AST):
+        if isinstance(e, ast.Name) and e.id in coord:
+            return coord[e.id]
+        if isinstance(e, ast.Attribute) and e.attr in ('y', 'x'):
+            return (src(e.value), e.attr)
+        return None
+
+    class T(ast.NodeTransformer):
+        def visit_Subscript(self, n: ast.Subscript):
+            self.generic_visit(n)
+            if isinstance(n.ctx, ast.Load) and isinstance(n.value, ast.Subscript) and \
+                    isinstance(n.value.value, ast.Name) and n.value.value.id in tables:
+                ay, ax = axis_of(n.value.slice), axis_of(n.slice)
+                if ay and ax and ay[0] == ax[0] and (ay[1], ax[1]) == ('y', 'x'):
+                    var, elt = tables[n.value.value.id]
+                    cell = ast.parse(f'{gname}[{ay[0]}]', mode='eval').body
+
+                    class S(ast.NodeTransformer):
+                        def visit_Name(self, m):
+                            return copy.deepcopy(cell) if m.id == var else m
+
+                        def visit_Call(self, m):
+                            self.generic_visit(m)
+                            if src(m.func) == 'bool' and len(m.args) == 1 and \
+                                    not m.keywords and \
+                                    isinstance(m.args[0], ast.Attribute) and \
+                                    m.args[0].attr == 'blocks_vision':
+                                return m.args[0]
+                            return m
+                    return S().visit(copy.deepcopy(elt))
+            return n
+
+        def visit_Call(self, n: ast.Call):
+            self.generic_visit(n)
+            if src(n.func) == 'bool' and len(n.args) == 1 and not n.keywords and \
+                    isinstance(n.args[0], ast.Attribute) and n.args[0].attr == 'blocks_vision':
+                return n.args[0]
+            return n
+    return ast.fix_missing_locations(T().visit(node))
+
+
+def _arr_of(t: ast.Subscript) -> ast.AST:
+    """the counter a cell store writes: A of `A[y, x]` and of `A[y][x]`"""
+    return t.value.value if isinstance(t.value, ast.Subscript) else t.value
 
 
 def check_ray_function(index, rep, f: Func) -> Optional[ast.For]:
@@ -176,6 +263,7 @@ def check_ray_function(index, rep, f: Func) -> Optional[ast.For]:
     gname = f.node.args.args[0].arg
     from ..inline import inlined_function
     node, inl = inlined_function(index, f)
+    node = _opacity_tables_to_cells(node, gname)
     outer, inner = ray_loop(node)
     if outer is None:
         # rays counted some other way (vectorised, library call): not a verdict
@@ -237,6 +325,11 @@ def check_ray_function(index, rep, f: Func) -> Optional[ast.For]:
             idx = src(w.expand(e.target.slice, stop=[pos]))
             if idx in (f'({pos}.y, {pos}.x)', f'{pos}.yx', f'({pos}.yx[0], {pos}.yx[1])'):
                 counts.append(e)
+            elif isinstance(e.target.value, ast.Subscript):
+                # rows of a nested list: counts[y][x]
+                iy = src(w.expand(e.target.value.slice, stop=[pos]))
+                if (iy, idx) in ((f'{pos}.y', f'{pos}.x'), (f'{pos}.yx[0]', f'{pos}.yx[1]')):
+                    counts.append(e)
     # updates of the light inside the inner loop, in order
     upds = [d for d in w.defs.get(light, []) if d[0] == 'value'
             and id(d[1]) in inner_ids]
@@ -272,7 +365,7 @@ def check_ray_function(index, rep, f: Func) -> Optional[ast.For]:
               "'int8'", "'uint16'", "'int16'", "'bool'", 'np.ubyte', 'np.byte', 'np.short',
               'np.ushort', 'np.float16', "'float16'", 'np.half'}
     for e in counts:
-        arr = e.target.value
+        arr = _arr_of(e.target)
         if not isinstance(arr, ast.Name):
             continue
         for d in w.defs.get(arr.id, []):
@@ -287,7 +380,7 @@ def check_ray_function(index, rep, f: Func) -> Optional[ast.For]:
                           f'{name}: counter `{unprefix_(arr.id)}` wide enough')
     totals = [e for e in counts if isinstance(e.node.op, ast.Add) and src(e.value) == '1'
               and prop_equiv(f_and(base, norm(e.guard)), base) is None]
-    den = src(totals[0].target.value) if totals else None
+    den = src(_arr_of(totals[0].target)) if totals else None
     if den is None:
         # a second nest over the same fan that counts every cell of every ray
         for o2, i2 in ray_loops(node):
@@ -314,7 +407,7 @@ def check_ray_function(index, rep, f: Func) -> Optional[ast.For]:
                 if d[0] == 'value' and isinstance(d[1], ast.Call) and \
                         _total_counter(index, f, d[1], pname, gname):
                     den = n_
-    RAY_ARRAYS[name] = (src(lit_counts[0].target.value) if lit_counts else None, den)
+    RAY_ARRAYS[name] = (src(_arr_of(lit_counts[0].target)) if lit_counts else None, den)
     if upds:
         # the light after the cell, as a function of (light, opacity of the cell)
         bad = None
@@ -519,9 +612,7 @@ def run(index: RepoIndex, rep) -> None:
             yield e, g
     import re
 
-    def unprefix(t: str) -> str:
-        """drop the prefixes the helper inliner gives to a helper's locals"""
-        return re.sub(r'_[A-Za-z_]+?\d+_(?=[A-Za-z_])', '', t)
+    unprefix = unprefix_
     from ..inline import inlined_function
     w = walk_function(inlined_function(index, rt)[0])
     rets = [e for e in w.events if e.kind == 'return' and e.value is not None]
